@@ -44,6 +44,7 @@ type Contract struct {
 	Safe      bool
 	SafeOnly  []string // restrict safety obligations to descriptions mentioning one of these
 	Requires  []*Clause
+	Assumes   []*Clause // representation invariants assumed at entry (not checked at call sites; trusted)
 	Ensures   []*Clause
 	Modifies  []SExpr // nil = unspecified (anything)
 	HasMod    bool
@@ -382,7 +383,7 @@ func (p *parser) postfix(e SExpr) SExpr {
 // ---------------------------------------------------------------------------
 // contract file parsing
 
-var clauseKeywords = map[string]bool{"requires": true, "ensures": true, "modifies": true, "loop": true, "at": true,
+var clauseKeywords = map[string]bool{"requires": true, "assumes": true, "ensures": true, "modifies": true, "loop": true, "at": true,
 	"safe": true, "pure": true, "inline": true, "getter": true, "preserves": true, "end": true, "let": true, "props": true, "trusted": true}
 
 // parseContractFile reads every //@ line of a file.
@@ -618,6 +619,12 @@ func (ct *Contract) addClause(txt, file string, line int) error {
 			return err
 		}
 		ct.Requires = append(ct.Requires, c)
+	case "assumes":
+		c, err := mk(rest)
+		if err != nil {
+			return err
+		}
+		ct.Assumes = append(ct.Assumes, c)
 	case "ensures":
 		c, err := mk(rest)
 		if err != nil {
